@@ -359,7 +359,6 @@ static struct fetch *create_fetch(const struct peer *p, const cJSON *request, co
 
 	struct fetch *f = alloc_fetch(p, id, number_of_matchers, request, response);
 	if (unlikely(f == NULL)) {
-		*response = create_error_response_from_request(p, request, INTERNAL_ERROR, "reason", "not enough memory to allocate fetch");
 		return NULL;
 	}
 
